@@ -884,6 +884,33 @@ def oracle_sigwide(case):
 
 
 SIGWIDE_CASES = [{'kind': 'sigwide', 'n': n, 'seed': s} for n in (9, 10, 11) for s in range(3)]
+SYMWIDE_CASES = [{'kind': 'symwide', 'n': n, 'f': f} for n in (9, 10, 11)
+                 for f in ('proj0', 'projlast', 'and01', 'x0_and_two', 'parity', 'threshold3')]
+
+
+def oracle_symwide(case):
+    """symmetry queries of TruthTable on 9-11 inputs (beyond what the permutation spec can tabulate), on functions
+    whose symmetry is known by construction; output 1 is always the parity (symmetric)"""
+    from cirbo.core.truth_table import TruthTable
+    n, f = case['n'], case['f']
+    bit = lambda j, i: (j >> (n - 1 - i)) & 1          # noqa: E731  input 0 is the most significant bit of the index
+    pc = lambda j: bin(j).count('1')                   # noqa: E731
+    fn, sym = {'proj0': (lambda j: bit(j, 0) == 1, False), 'projlast': (lambda j: bit(j, n - 1) == 1, False),
+               'and01': (lambda j: bit(j, 0) == 1 and bit(j, 1) == 1, False),
+               'x0_and_two': (lambda j: bit(j, 0) == 1 and pc(j) >= 2, False),
+               'parity': (lambda j: pc(j) % 2 == 1, True), 'threshold3': (lambda j: pc(j) >= 3, True)}[f]
+    table = [[bool(fn(j)) for j in range(2 ** n)], [pc(j) % 2 == 1 for j in range(2 ** n)]]
+    try:
+        tt = TruthTable(table)
+        got = (tt.is_symmetric(), tt.is_symmetric_at(0), tt.is_symmetric_at(1))
+    except Exception as e:  # noqa: BLE001
+        return f'TruthTable: symmetry query raised {err_name(e)} on the {n}-input function {f}'
+    if got != (sym, sym, True):
+        return (f'TruthTable.is_symmetric: on the {n}-input function ({f}, parity) the answers (is_symmetric, '
+                f'is_symmetric_at(0), is_symmetric_at(1)) are {got}, the definition gives {(sym, sym, True)}')
+    return None
+
+
 WIDE_CASES = [{'kind': 'intwide', 'op': op, 'in_len': il, 'out_len': ol, 'be': be}
               for op, il, ol in (('mul', 32, 64), ('mul', 40, 80), ('sq', 33, 66), ('add', 60, 61), ('id', 64, 64))
               for be in (False, True)]
@@ -968,6 +995,8 @@ def oracle(case):
         return oracle_intwide(case)
     if k == 'sigwide':
         return oracle_sigwide(case)
+    if k == 'symwide':
+        return oracle_symwide(case)
     return None
 
 
